@@ -2,6 +2,8 @@
 # Runs every seeded change and every selftest canary against the check of the property it breaks and writes
 # /verif/seeded/MATRIX.md + matrix.json.  Each change is applied to a scratch copy of /repo's committed tree (git
 # archive HEAD, under /tmp, removed at once) and the check runs there with --repo; J jobs in parallel (default 4).
+#   seed_matrix.sh --only <regex>          reruns only the changes whose name (seeded/Cnn-i or canary/<name>) matches and merges
+#   the rows into the existing matrix.json.
 #   seed_matrix.sh --in-repo <seed-id>...   applies the named seeded changes to /repo itself instead (git apply, run the
 #   check, git checkout -- .), the way a registered command sees them; requires a clean /repo.
 cd /verif
@@ -30,13 +32,19 @@ if [ "$1" = "--in-repo" ]; then
   done
   exit 0
 fi
+ONLY='.'; MERGE=0
+if [ "$1" = "--only" ]; then ONLY=$2; MERGE=1; fi
+export MERGE
 {
 for d in seeded/C*/; do id=$(basename $d); echo "seeded/$id /verif/seeded/$id/patch.diff ${id%-*}"; done
 for p in selftest/mutants/*.patch; do n=$(basename $p .patch); echo "canary/$n /verif/$p ${n%%-*}"; done
-} | xargs -P $J -L 1 bash -c 'one "$0" "$1" "$2"' > /tmp/matrix.lines 2>/dev/null
+} | grep -E "$ONLY" | xargs -P $J -L 1 bash -c 'one "$0" "$1" "$2"' > /tmp/matrix.lines 2>/dev/null
 python3 - <<'PY'
-import json
+import json,os
 rows=[json.loads(l) for l in open('/tmp/matrix.lines') if l.strip().startswith('{')]
+if os.environ.get('MERGE')=='1':
+    new={r['change'] for r in rows}
+    rows+=[r for r in json.load(open('/verif/seeded/matrix.json')) if r['change'] not in new]
 rows.sort(key=lambda r:(r['change'].split('/')[0]!='seeded', r['change']))
 json.dump(rows, open('/verif/seeded/matrix.json','w'), indent=0)
 with open('/verif/seeded/MATRIX.md','w') as f:
